@@ -244,6 +244,25 @@ def independent_tokens(ctx, dist):
                     cases.append("jwsverio\t%s\t-\t%s\t0\t%s\t%s" % (G.dumps(tok), G.dumps(pub), ("1,%d" % (len(text) - 1)) if len(text) > 1 else "-", text.hex() or "-"))
                     want.append(w)
                     what.append((alg, h2))
+    # RSASSA-PSS made outside the library (python EMSA-PSS): RFC 7518 3.5 fixes the salt to the size of the hash -- the genuine
+    # one verifies, the same signature with another salt length is another algorithm and does not
+    import pyrsa
+    rk = keys.get("RSA2048")
+    if rk:
+        rki = {m: int.from_bytes(G.unb64(rk[m]), "big") for m in ("n", "e", "d")}
+        for alg, hn in (("PS256", "sha256"), ("PS384", "sha384"), ("PS512", "sha512")):
+            hl = hashlib.new(hn).digest_size
+            prot = G.b64(G.dumps({"alg": alg}).encode())
+            for payload in (b"", b"pss outside"):
+                pay = G.b64(payload)
+                for sl in (hl, 0, 20, hl - 1, hl + 1, 256 - hl - 2):
+                    sg = pyrsa.pss_sign(rki, hn, (prot + "." + pay).encode(), sl)
+                    if sg is None:
+                        continue
+                    tok = {"protected": prot, "payload": pay, "signature": G.b64(sg)}
+                    cases.append("jwsver\t%s\t-\t%s\t0" % (G.dumps(tok), G.dumps(G.pub_of(rk))))
+                    want.append("T" if sl == hl else "F")
+                    what.append((alg, "RSASSA-PSS with a salt of %d octets (the hash has %d)" % (sl, hl)))
     # the payload TEXT is what was signed, all of it: a genuine token whose payload member is continued behind an embedded
     # NUL (a JSON string may hold one) presents another text and must not verify, one-shot and streaming alike
     for alg in ("ES256", "RS256", "ES512"):
